@@ -947,8 +947,10 @@ func (p *Policy) sanitizeStyles(attr html.Attribute, elementName string) html.At
 
 decLoop:
 	for _, dec := range decs {
-		tempProperty := strings.ToLower(dec.Property)
-		tempValue, syntax := removeUnicode(strings.ToLower(dec.Value))
+		// CSS is ASCII case-insensitive: strings.ToLower would also turn
+		// the Kelvin sign into k, and pin\u212a is not pink for any browser
+		tempProperty := asciiLower(dec.Property)
+		tempValue, syntax := removeUnicode(asciiLower(dec.Value))
 		if syntax {
 			// an escaped bracket, quote, backslash or semi-colon is an
 			// ordinary character for a CSS parser; judged as the syntax it
@@ -1298,11 +1300,21 @@ func stringInSlice(needle string, haystack []string) bool {
 	for _, straw := range haystack {
 		// strings.EqualFold would also fold U+017F (long s) into s, which
 		// no CSS keyword comparison does
-		if strings.ToLower(straw) == strings.ToLower(needle) {
+		if asciiLower(straw) == asciiLower(needle) {
 			return true
 		}
 	}
 	return false
+}
+
+// asciiLower lower-cases the letters A to Z and nothing else
+func asciiLower(s string) string {
+	return strings.Map(func(r rune) rune {
+		if 'A' <= r && r <= 'Z' {
+			return r + ('a' - 'A')
+		}
+		return r
+	}, s)
 }
 
 func isDataAttribute(val string) bool {
